@@ -68,12 +68,14 @@ def gen_case(rng, tier):
     if fo < 0.25:
         pass                                                              # defaults: chance 10, delay 5000
     else:
-        chance = rng.choice([0, 1, 1, 1, 2, 3, 10])
-        delay = rng.choice([0, 0, 100, 5000, 5000, 30000, 120000])
+        chance = rng.choice([0, 0, 1, 1, 1, 2, 3, 10, 10, 65535])
+        delay = rng.choice([0, 0, 1, 100, 5000, 5000, 30000, 120000, 2147483647])
         if rng.random() < 0.3:
             chance, delay = 1, rng.choice([0, 100, 5000])     # probes at every opportunity
         units.append("ch=%d" % chance)
         units.append("dl=%d" % delay)
+    nochance = "ch=0" in units and len(ids) >= 2 and rng.random() < 0.5
+    delay = min(delay, 10 ** 7)          # for the clock advances below
     units.append("seed=%d" % rng.randrange(1, 1000000))
     nev = rng.choice([4, 8, 12, 20, 30]) if tier != "thorough" else rng.choice([8, 20, 40, 80])
     mood = rng.random()      # how hostile the network is in this case
@@ -87,6 +89,10 @@ def gen_case(rng, tier):
     if pfail and rng.random() < 0.6:
         evs += ["q", rng.choice(["s", "r", "i"]), "a", "w%d" % rng.choice([delay, delay + 1, 60000]), "p", "a", "a",
                 "w%d" % rng.choice([delay, delay, delay + 1, max(0, delay - 1), 60000]), rng.choice(["q", "p"]), "a", "a"]
+    if nochance:
+        # retry chance 0 disables probing: a server fails while another stays healthy, more than the
+        # configured and the default (5 s) delay passes, then dozens of fresh queries - no probe copy
+        evs += ["q", rng.choice(["s", "r", "i"]), "a", "w%d" % (max(delay, 5000) + rng.choice([0, 1, 1000]))] + ["q", "a"] * rng.choice([30, 40, 50])
     for _ in range(nev):
         r = rng.random()
         if pending_guess == 0:
